@@ -27,6 +27,7 @@ from __future__ import annotations
 
 import os
 import re
+import shutil
 import subprocess
 import sys
 import time
@@ -41,9 +42,10 @@ TIMEOUT = int(os.environ.get("VERIF_APALACHE_TIMEOUT", "900"))
 PARALLEL = int(os.environ.get("VERIF_APALACHE_PARALLEL", "4"))
 
 
-def ob(module, obligation, inv, *, init, length, cinit=None, expect="proved", what="", next_=None, timeout=None):
+def ob(module, obligation, inv, *, init, length, cinit=None, expect="proved", what="", next_=None, timeout=None, deps=()):
+    """deps: base specifications (spec/*.tla) the typed module INSTANCEs - copied next to it for the run."""
     return {"module": module, "obligation": obligation, "invariant": inv, "init": init, "length": length,
-            "cinit": cinit, "expect": expect, "what": what, "next": next_, "timeout": timeout}
+            "cinit": cinit, "expect": expect, "what": what, "next": next_, "timeout": timeout, "deps": list(deps)}
 
 
 # ---------------------------------------------------------------------------------------------------
@@ -69,6 +71,31 @@ PLAN["C10"] = [
        what="vacuity guard: IndInit admits a store with a redirect and a memo entry that hit on its second candidate"),
 ]
 
+_LW = "LockWaitInd"
+_LWD = ("LockWait.tla",)
+PLAN["C20"] = [
+    ob(_LW, "init", "IndInv", init="Init", length=0, cinit="ConstInit", deps=_LWD),
+    ob(_LW, "step", "IndInv", init="IndInit", length=1, cinit="ConstInit", deps=_LWD,
+       what="spec/LockWait.tla itself (INSTANCE), for every BusyTimeout > MaxHold >= 0 and every integer pre-state"),
+    ob(_LW, "implies", "NeverLocked", init="IndInit", length=0, cinit="ConstInit", deps=_LWD),
+    ob(_LW, "step", "IndInv", init="IndInit", length=1, cinit="ConstInitLong", deps=_LWD, expect="failed",
+       what="vacuity guard: a holder that may keep the lock for BusyTimeout or longer (idle holder) defeats the busy handler"),
+]
+_WL = "WorkersLockInd"
+_WLP = ("OneWriter", "TxnLockAgree", "WalAtWork", "NoIdleTransaction")
+PLAN["C20"] += [
+    ob(_WL, "init", "IndInv", init="Init", length=0, cinit="ConstInit"),
+    ob(_WL, "step", "IndInv", init="IndInit", length=1, cinit="ConstInit",
+       what="lock / transaction / journal-mode core of Workers.tla, <= 4 workers + the creating context, any <= 5 files"),
+] + [ob(_WL, "implies", inv, init="IndInit", length=0, cinit="ConstInit") for inv in _WLP] + [
+    ob(_WL, "step", "IndInv", init="IndInit", length=1, cinit=c, expect="failed", what="vacuity guard: deviation " + d)
+    for c, d in (("ConstInitBootSnap", "BootstrapUnderSnapshot"), ("ConstInitCommitSkipped", "CommitSkippedWhenUnchanged"),
+                 ("ConstInitCreatorOnly", "ModeSetByCreatorOnly"))
+] + [
+    ob(_WL, "implies", "NoInterestingState", init="IndInit", length=0, cinit="ConstInit", expect="failed",
+       what="vacuity guard: IndInit admits a writer inside its critical section beside a reader and an idle context"),
+]
+
 
 def run_one(o: dict, timeout: int | None = None) -> dict:
     """One apalache-mc run under a timeout in a scratch directory (out-dir, TMPDIR and the SANY
@@ -82,16 +109,27 @@ def run_one(o: dict, timeout: int | None = None) -> dict:
             cmd.append(f"--cinit={o['cinit']}")
         if o.get("next"):
             cmd.append(f"--next={o['next']}")
-        cmd.append(str(SPEC / (o["module"] + ".tla")))
+        work = sc / "spec"
+        work.mkdir()
+        shutil.copy(SPEC / (o["module"] + ".tla"), work)
+        for d in o.get("deps") or []:
+            shutil.copy(common.SPEC / d, work)
+        cmd.append(str(work / (o["module"] + ".tla")))
         env = dict(os.environ)
         env["TMPDIR"] = str(sc)
         env.setdefault("JVM_ARGS", "-Xmx8g")
         try:
             p = subprocess.run(cmd, cwd=str(sc), env=env, capture_output=True, text=True, timeout=timeout)
             out = p.stdout + p.stderr
+            if os.environ.get("VERIF_APALACHE_SHOW"):     # while building: show the counterexample
+                for f in sorted((sc / "out").rglob("violation1.tla")):
+                    t = f.read_text()
+                    sys.stderr.write(f"--- {o['module']} {o['obligation']} {o['invariant']} {o.get('cinit')}\n" + t[t.find("State0 =="):][:6000] + "\n")
         except subprocess.TimeoutExpired:
             out = None
     rec = {k: o[k] for k in ("module", "obligation", "invariant", "cinit", "expect") if o.get(k) is not None}
+    if o.get("deps"):
+        rec["instances"] = o["deps"]
     if o.get("what"):
         rec["what"] = o["what"]
     rec["seconds"] = round(time.time() - t0, 1)
